@@ -18,7 +18,11 @@ def _hook(event, args):
         return
     _STATE["on"] = False  # no re-entrancy while we summarise
     try:
-        _STATE["events"].append((event, _summ(event, args)))
+        try:
+            caller = sys._getframe(1).f_code.co_filename  # the Python frame performing the audited operation
+        except Exception:
+            caller = "?"
+        _STATE["events"].append((event, _summ(event, args), caller))
     finally:
         _STATE["on"] = True
 
@@ -57,10 +61,14 @@ def recording():
         _STATE["on"] = False
 
 
-def write_events(events):
-    """events that create / modify / delete file-system objects -> [(event, path)]"""
+def write_events(events, only_from=None):
+    """events that create / modify / delete file-system objects -> [(event, path)];
+    only_from = path prefix the performing frame's file must have (e.g. the repository root)"""
     out = []
-    for ev, a in events:
+    for e in events:
+        ev, a = e[0], e[1]
+        if only_from is not None and not (len(e) > 2 and str(e[2]).startswith(only_from)):
+            continue
         if ev == "open":
             mode, flags = a[1], a[2]
             writing = any(c in (mode or "") for c in "wax+") if mode not in (None, "None") else False
